@@ -44,8 +44,12 @@ Section DistPrim.
   Definition norm_vector (v : V3 F) : V3 F :=
     let n := norm v in if n =? zero then v else vdivs v n.
 
-  (** pytransform3d.rotations.perpendicular_to_vector; [feps] = np.finfo(float).eps *)
-  Definition feps : F := cst (1 # 4503599627370496).
+  (** pytransform3d.rotations.perpendicular_to_vector (pytransform3d 3.16, rotations/_utils.py):
+        if abs(a[2]) < eps: return np.copy(unitz)
+        return np.array([1.0, 0.0, -a[0] / a[2]])
+      with [feps] = pytransform3d.rotations._constants.eps = 1e-7 (exact rational of that binary64 literal);
+      NOT the machine epsilon *)
+  Definition feps : F := cst (944473296573929 # 9444732965739290427392).
   Definition perpendicular_to_vector (a : V3 F) : V3 F :=
     if abs (vz a) <? feps then V zero zero one
     else V one zero (- (vx a) / vz a).
@@ -325,7 +329,7 @@ Section DistPrim.
 
   (** ** _box.py: point_to_box *)
   Definition point_to_box (p : V3 F) (T : Pose F) (sz : V3 F) : F * V3 F :=
-    let q := inverse_transform_point T p in
+    let q := inverse_transform_point_code T p in       (* utils.inverse_transform_point as written: R^T p - R^T t *)
     let h := vscale half sz in
     let k := V (clip (vx q) (- vx h) (vx h)) (clip (vy q) (- vy h) (vy h)) (clip (vz q) (- vz h) (vz h)) in
     let cp := vadd (trans T) (mulMV (rot T) k) in
